@@ -22,6 +22,42 @@ CHECKS = {
             "rapid-generated nested-message cases over the five flavours (MarshalTo, Marshal-only, plain gogo, plain Google v1, plain Google v2 incl. well-known types and typed nil) x positions x failing stubs x inflated lengths; byte-exact oracle prefix|key|len|csproto.Marshal(m)|suffix on an exactly-sized buffer, decode-side cursor/equality/error-propagation oracle",
             "plain gogo is represented by gogo's descriptor.DescriptorProto (registered with gogo, XXX_ methods, no Marshal); Google v1 by a hand-written pre-APIv2 style struct with XXX_ methods",
             "property-based testing (rapid), byte-exact reference construction with refwire"),
+    "C04": ("gencode",
+            "the working-tree protoc-gen-fastmarshal regenerates code for a schema corpus (feature matrix + seeded random schemas) x {gv2, gogo, Google-v1 legacy, golang-protoc-gen-go} x generator options; generated values (systematic boundary sweep + rapid-random trees) are built on fresh structs through reflection; oracle: Size()==len(Marshal()), MarshalTo fills an exactly-sized sentinel-backed buffer with the same bytes, no panic",
+            "no protoc in the sandbox: descriptors are built programmatically and fed to the plug-ins by a protoc replacement (fidelity: byte-identical regeneration of the repository's examples was probed); shapes listed in known_findings.jsonl are steered away from by construction and counted",
+            "property-based testing (rapid) + systematic boundary sweep over regenerated code"),
+    "C05": ("gencode",
+            "same case stream as C04 (own run): the bytes of the generated Marshal are parsed by dynamicpb from the schema alone and must equal the original incl. presence and unknown bytes; additionally, at every nesting level the set of field numbers on the wire must equal the set of populated fields (no phantom defaults, nothing dropped)",
+            "the dynamic reference never consults generated methods (gogo's and golang's own Marshal would delegate to them); byte equality with the reference encoder is not required",
+            "property-based differential testing (rapid) against descriptor-driven dynamicpb"),
+    "C06": ("gencode",
+            "each generated value is re-encoded by a schema-aware encoder whose free choices (field order, packed/unpacked/split runs, duplicated singular scalars, split messages, map entry shapes, interleaved unknown fields) are drawn from rapid, the destination is pre-populated with unrelated content, and the generated Unmarshal must succeed and equal the reference decode of the same bytes",
+            "only encodings a conforming writer for the same schema may emit (minimal varints, sign-extended negatives, valid UTF-8, declared enum values for closed enums, no groups)",
+            "metamorphic / differential property-based testing (rapid) against dynamicpb"),
+    "C07": ("gencode",
+            "generated values are encoded with 1..6 well-formed unknown fields inserted at random positions of every nesting level; Unmarshal -> Size -> Marshal; the reference decode of input and output must carry byte-identical unknown fields at every level and equal known parts",
+            "unknown numbers avoid declared extension numbers (those are known fields); four supported wire types only",
+            "round-trip property-based testing (rapid) with reference-extracted unknown bytes"),
+    "C08": ("gencode",
+            "mutation operators (truncate / overwrite every byte / inflate length prefixes / rewire key types / append garbage / hostile lengths / random bytes) applied systematically to sweep encodings and randomly to generated encodings of every type; oracle: Unmarshal returns without panic, allocation bounded by 4 KiB + len*(576+2*S), and when the reference accepts the input too the messages are equal",
+            "csproto rejecting what the reference tolerates is not a violation; allocation is metered with runtime/metrics and confirmed by an exact MemStats bracket; a killed process is replayed from its crash journal",
+            "mutation-based property testing (rapid) with a both-accept differential oracle; native fuzzing in the thorough tier"),
+    "C09": ("gencode",
+            "rapid-generated programs (<= 25 ops: field set/clear/grow/shrink through reflection stores incl. fields of existing children, Size, Marshal, MarshalTo, csproto.Size/Marshal, the runtime's own Size/Marshal, Unmarshal, Reset, Clone) on one live message; after every Marshal* the bytes must equal Marshal of a fresh message built from the model; plus a -race binary with 2..32 goroutines calling Size/Marshal/MarshalTo on one unmutated message",
+            "up to map-entry order when a map has >= 2 entries; mutation during a concurrent Marshal is outside the property; schedules are sampled",
+            "model-based stateful property testing (rapid) + race-detector stress"),
+    "C10": ("gencode",
+            "for every type generated without enableunsafedecode: decode a generated encoding rich in strings/bytes/maps/nested/unknown data, snapshot through reflection, overwrite the input buffer and re-use it for another decode, and require the first message to be unchanged; the lazyproto half is covered by the hand-out snapshots of C14 (safe mode) which re-read every handed-out slice/string after later decodes",
+            "types generated with enableunsafedecode and lazyproto in fast mode are documented exceptions and not asserted either way",
+            "metamorphic property-based testing (rapid)"),
+    "C16": ("gencode",
+            "every (schema file, runtime variant, option combination) of the corpus is run through the working-tree plug-in twice in separate processes (different cwd, TZ, HOME, > 1 s apart); oracle: no error, byte-identical responses, file names emitted once and equal to the documented pattern, go/parser accepts every file, go build succeeds per package together with the message types of the matching runtime",
+            "supported feature set = proto2/proto3 without groups, MessageSet, weak fields, editions; proto3 optional only on generators that declare support; the three message-type generators are fixtures built from the module cache",
+            "generated-schema testing: feature matrix + seeded random schemas, run-twice differential + compile oracle"),
+    "C17": ("gencode",
+            "for every proto2 type with required fields of its own or in children reached through a field / required field / list / map / oneof, EVERY subset of those required fields left unset is enumerated (plus the empty message and the empty input); oracle = reference verdict (proto.CheckInitialized / strict Unmarshal) in both directions",
+            "exhaustive per type up to 2^8 subsets; the base value populates every path to a required field",
+            "exhaustive small-scope enumeration with a reference oracle"),
     "C13": ("lazy",
             "rapid-generated schema-free messages (all wire types, repeated, packed, nested incl. empty, numbers up to 2^29-1) x random definitions (present/absent/nested/negative tags) x queries over all 26 typed accessors + NestedResult(s) through four access routes x {safe, fast} x {Decode function, Decoder}; oracle = reference wire parse of the same bytes + accessor table incl. error classes; mutated inputs: no panic",
             "each requested number uses one wire type (documented precondition); error classes are compared with errors.Is/As, never by text; for a tag declared flat but not nested either not-defined error is accepted",
